@@ -37,8 +37,8 @@ TEXT = {
     "C10": dict(technique="fuzzing: rapid byte-level generation in the quick tier, native coverage-guided go fuzzing (5 targets) in the thorough tier; oracle = returns normally or with a permitted error, no panic, 30 s watchdog",
                 text="Arbitrary bytes (corpus-seeded, mutated, hostile fragments) as pattern / input / replacement, all 2^9 option subsets, compile options incl. tiny stack limits, out-of-range start offsets and counts, driven through Compile/MustCompile, all match calls with full iteration, Replace/ReplaceFunc/Split, 22 adapter methods and Escape/Unescape. A process-killing failure (out of memory, fatal error) is reported with the case that was running.",
                 note="Every Regexp gets MatchTimeout=100ms so exponential matching is a permitted error; hang = no return within 30 s on <=64-byte patterns and <=256-byte inputs. Native fuzz campaigns are not seed-reproducible; crashers are.", ref="§6 C10"),
-    "C16": dict(technique="property-based testing (rapid): independent set-algebra evaluator over a class AST vs seven lookup paths",
-                text="Random class grammar (ranges, negation, nested subtraction, shorthands, \\p{..}, POSIX names) x {IgnoreCase, ECMAScript, RE2} x bitmap on/off x rune domain exhaustive over U+0000-U+024F plus endpoints, boundaries and samples (thorough: all 1,114,112 code points through the parsed set): CharIn of the parsed set and MatchRunes of \\A[..]\\z, [..]+ and x*[..] must equal the oracle.",
+    "C16": dict(technique="property-based testing (rapid): independent set-algebra evaluator over a class AST vs eleven lookup paths",
+                text="Random class grammar (ranges, negation, nested subtraction, shorthands, \\p{..}, POSIX names) x {IgnoreCase, ECMAScript, RE2} x bitmap on/off x rune domain exhaustive over U+0000-U+024F plus endpoints, boundaries and samples (thorough: all 1,114,112 code points through the parsed set): CharIn of the parsed set, MatchRunes of \\A[..]\\z, [..]+ and x*[..], and the first match of [..]*! / [..]?m on r+follower (the class as a leading nullable loop whose first-char set is merged with the follower's) must equal the oracle.",
                 note="Category/script tables are Go's (shared trusted base). IgnoreCase domain restricted exactly as the property states.", ref="§6 C16"),
     "C18": dict(technique="property-based testing (rapid): metamorphic - three spellings of an option set (compile option, leading (?O), wrapping (?O:...)) and scoped vs switch-style groups agree",
                 text="F-core ASTs with nested on/off option groups and corpus patterns x all 32 subsets of {i,m,s,n,x} x inputs x every offset: the three spellings give equal matches, captures, group numbers and names; (?o:X) agrees with (?:(?o)X). Non-trivial cases are those where O actually changes the result (measured against O = {}).",
@@ -47,7 +47,7 @@ TEXT = {
                 text="Strings over all of Unicode (weighted to metacharacters, whitespace, controls, non-printable and unassigned code points below and above U+FFFF) x option subsets that keep literal meaning: round trip, \\A(?:Escape(s))\\z compiles, matches s and rejects up to 8 one-edit mutants.",
                 note="Domain = valid UTF-8 strings. 'Matches nothing else' is sampled through mutants, not proved.", ref="§6 C19"),
     "C20": dict(technique="property-based testing (rapid): metamorphic - case flips of input letters and of pattern letters / class members / range endpoints leave the outcome unchanged",
-                text="F-core and F-accel ASTs compiled with IgnoreCase x inputs x random flip masks x one case-flipped printing of the pattern, through rune and string entry points (the raw-string prefix filter folds ASCII on its own): position, length and all captures are invariant.",
+                text="F-core and F-accel ASTs compiled with IgnoreCase (optionally RightToLeft; backreferences also inside lookbehinds) x inputs x random flip masks x one case-flipped printing of the pattern, through rune and string entry points (the raw-string prefix filter folds ASCII on its own): position, length and all captures are invariant.",
                 note="Letters restricted to fold orbits of size two (ASCII without k/s, Latin-1, Greek, Cyrillic pairs), as the property states.", ref="§6 C20"),
     "C17": dict(technique="property-based testing (rapid): independent implementation of the documented numbering rule + distinct-token witness per group",
                 text="Random mixes of unnamed, named, explicitly numbered (sparse), duplicate-named, nested and non-capturing groups with (?n)/(?-n) x {default, MaintainCaptureOrder, ECMAScript, RE2 (?P<>)}: predicted numbers/names vs GetGroupNumbers/Names, both lookups, Groups() order and names, GroupByNumber/Name, backreferences by number and name, $n/${name} replacements - each observed through the distinct token the group captures.",
@@ -56,10 +56,10 @@ TEXT = {
                 text="F-re2 ASTs (no quantified nullable sub-pattern) compiled by regexp.Compile and compat.Compile(p, RE2) x ASCII / multi-byte / invalid-UTF-8 inputs x n in {-1,0,1,2,3,100}: every method of compat.Matcher must return exactly what Go returns (nil-ness, byte offsets, -1 pairs, empty-match rule).",
                 note="Go's regexp is the reference, except for one shape on which Go itself is wrong (regexp/syntax factors `B|(?i:b)x` ignoring the case flag): patterns with a cased letter in two branches of one alternation under different case sensitivity are discarded and counted. Three recorded gaps (Unicode \\b, named-group numbering, (?i)\\W containing k/s) are excluded by narrow predicates and reported as KNOWN-FINDING; case-folded negated POSIX classes / categories are outside the common syntax. An adapter panic caused by a match timeout is a discard.", ref="§6 C06"),
     "C13": dict(technique="property-based testing (rapid): metamorphic in the limit L (result(L) in {result(unlimited), ErrBacktrackingStackLimit}, monotone in L) + capacity invariant via the scan-stats hook",
-                text="Deep-nesting ASTs and corpus patterns x inputs up to 60 runes x ~18 limits per case (0..200 dense, 256, 1000, 100000, -1): equality with the unlimited result or the limit error, no panic, allocated backtracking stack <= L for pooled and private interpreter states, monotonicity, and the Regexp answers a probe like a fresh one after every call.",
+                text="Deep-nesting ASTs, chains of 3-14 single-character loops (left-to-right, RightToLeft, inside lookbehinds) and corpus patterns x inputs up to 60 runes x ~18 limits per case (0..200 dense, 256, 1000, 100000, -1): equality with the unlimited result or the limit error, no panic, allocated backtracking stack <= L for pooled and private interpreter states, monotonicity, and the Regexp answers a probe like a fresh one after every call.",
                 note="Capacity is read through verif-tagged accessors (VerifScanStats, VerifPooledTrackCap).", ref="§6 C13"),
     "C14": dict(technique="property-based testing (rapid) over generated histories in virtual time (testing/synctest bubble: the harness owns the clock) + a small wall-clock leg",
-                text="Histories of timed long / quick matches, idle gaps around the clock's lifetime, StopTimeoutClock and concurrent deadlines run against the unmodified clock code on a fake clock: timeout fires in [d-2ms, d+4ms], quick matches never time out and return at their work time, the clock goroutine is gone 1 s + 5 ms after the last deadline and after StopTimeoutClock, and restarts on demand. A wall-clock leg runs real catastrophic patterns through the real interpreter with lenient bounds, a scheduling-stall canary and 3-in-a-row confirmation.",
+                text="Histories (calls with one timeout value share one Regexp, so pooled interpreter states are reused) of timed long / quick matches, idle gaps around the clock's lifetime, StopTimeoutClock and concurrent deadlines run against the unmodified clock code on a fake clock: timeout fires in [d-2ms, d+4ms], quick matches never time out and return at their work time, the clock goroutine is gone 1 s + 5 ms after the last deadline and after StopTimeoutClock, and restarts on demand. A wall-clock leg runs real catastrophic patterns through the real interpreter with lenient bounds, a scheduling-stall canary and 3-in-a-row confirmation.",
                 note="The virtual leg replaces the interpreter by a registered engine that polls CheckTimeout every 50 virtual microseconds; polling density of the real interpreter is only covered by the wall-clock leg. Liveness is checked as bounded-time safety.", ref="§6 C14"),
     "C12": dict(technique="property-based testing (rapid state machine, t.Repeat): every call in a generated history vs the same call on a freshly compiled Regexp",
                 text="Histories of ~30 actions over 4 shared Regexps (balancing, bool-only program, backreference, stack limit 64, timeout, RightToLeft, replacement cache of 2, ...) x 13 entry points x inputs that match / fail / hit the limit / time out and cross the pooled-buffer size classes (1K/4K/16K runes) x 18 replacements: each outcome (canonical result or error class) equals the outcome on a fresh Regexp; probe calls re-check every shared Regexp.",
